@@ -1,8 +1,8 @@
 // C07 Part A, coverage-guided: arbitrary bytes -> Xml::decode.
 // Oracle inside the target (refxml::decode_oracle): the call returns (libFuzzer's -timeout is only a backstop, no timing
 // oracle), ASan is silent, and the result is the null element or a tree whose root has a null parent(), in which every
-// child's parent() is its container and which has no more nodes than the input has bytes; trees whose names are of the
-// form [A-Za-z_][A-Za-z0-9_.-]* must additionally survive encode -> decode (second clause of the property).
+// child's parent() is its container and which has no more nodes than the input has bytes; trees whose names are
+// XML 1.0 Names (refxml::name_ok: ':' and non-ASCII letters allowed, also first) must additionally survive encode -> decode (second clause of the property).
 // The input is held in a heap String of exactly the input's size (an over-read hits the redzone) that is destroyed
 // before the result is inspected.
 #include "common/vffuzz.h"
